@@ -240,4 +240,22 @@ TagsErr(b, bal) ==
       hasStk == \E i \in S : bal[i].tag = 2
   IN IF b.cfg.asset_tag \in {0, 3, 4, 5} /\ hasStk THEN "AssetTagMismatch"
      ELSE IF b.cfg.asset_tag = 2 /\ hasDef THEN "AssetTagMismatch" ELSE "ok"
+
+\* ---- Token-2022 transfer fee (utils::calculate_pre_fee_amount, spl-token-2022 TransferFee::calculate_fee) ---------
+CeilDivB(n, d) == BFloorDiv(BSub(BAdd(n, d), BOne), d)
+\* fee withheld from a transfer of y tokens of mint record m ([fee_bps, max_fee])
+TokFee(m, y) == IF m.fee_bps = 0 \/ BIsZero(y) THEN BZero ELSE BMin(m.max_fee, CeilDivB(BMul(y, BOfInt(m.fee_bps)), BOfInt(10000)))
+\* amount to send so that x arrives
+PreFee(m, x) ==
+  IF m.fee_bps = 0 THEN x
+  ELSE IF BIsZero(x) THEN BZero
+  ELSE IF m.fee_bps = 10000 THEN BAdd(m.max_fee, x)
+  ELSE LET raw == CeilDivB(BMul(x, BOfInt(10000)), BOfInt(10000 - m.fee_bps)) IN
+       IF BGe(BSub(raw, x), m.max_fee) THEN BAdd(x, m.max_fee) ELSE raw
+PostFee(m, y) == BSub(y, TokFee(m, y))
+\* token transfer of y from account f to account t (fee withheld on the receiving account)
+Xfer(tok, m, f, t, y) ==
+  LET fee == TokFee(m, y) IN
+  [tok EXCEPT ![f] = [@ EXCEPT !.amount = BSub(@, y)],
+              ![t] = [@ EXCEPT !.amount = BAdd(@, BSub(y, fee)), !.withheld = BAdd(@, fee)]]
 =============================================================================
